@@ -53,6 +53,9 @@ type batchCase struct {
 	// with RegionServerStoppedException: connections die while the batch is being grouped or is in
 	// flight (then a call may legitimately be executed twice: only the order / routing oracles apply)
 	ProbeStop []int `json:"probe_stop,omitempty"`
+	// RegionNSRE: these regions answer the next multi-request addressing them with a region-level
+	// NotServingRegionException (the region is fine again afterwards)
+	RegionNSRE []int `json:"region_nsre,omitempty"`
 	// Sched: call SchedCall gets two owned scheduling points: the batch is held up CollectMS before it first
 	// looks at that call's result, the region client's reader DeliverMS before it delivers to it
 	Sched          bool `json:"sched,omitempty"`
@@ -100,6 +103,10 @@ func batchExec(c batchCase) batchObs {
 			for _, ri := range c.RegionStop {
 				r := regs[((ri%len(regs))+len(regs))%len(regs)]
 				r.MultiExc = append(r.MultiExc, sim.Exc{Class: sim.RSStopped, Stack: sim.RSStopped + ": Server is stopping"})
+			}
+			for _, ri := range c.RegionNSRE {
+				r := regs[((ri%len(regs))+len(regs))%len(regs)]
+				r.MultiExc = append(r.MultiExc, sim.Exc{Class: sim.NSRE, Stack: sim.NSRE + ": region is not online"})
 			}
 			for _, ri := range c.ProbeStop {
 				r := regs[((ri%len(regs))+len(regs))%len(regs)]
@@ -445,6 +452,18 @@ func c07Gen(t *rapid.T) batchCase {
 		}
 		c.CancelOwnAtMS = rapid.SampledFrom([]int{25, 30, 60}).Draw(t, "cancelown")
 		c.ReleaseAtMS = c.CancelOwnAtMS + rapid.SampledFrom([]int{1, 10, 100}).Draw(t, "releaseafter")
+		if rapid.Bool().Draw(t, "early") {
+			// ... or that ends before the batch is even flushed, while other regions answer the
+			// multi-request with a region-level NotServingRegion
+			c.Scripts = map[string][]sim.Outcome{}
+			c.CancelOwnAtMS, c.ReleaseAtMS = 0, 0
+			c.FlushMS = 20
+			c.QueueSize = 100
+			nr := rapid.IntRange(1, 2).Draw(t, "nnsre")
+			for k := 0; k < nr; k++ {
+				c.RegionNSRE = append(c.RegionNSRE, rapid.IntRange(0, 3).Draw(t, "nsreregion"))
+			}
+		}
 	case 0:
 		c.CancelAtMS = rapid.SampledFrom([]int{0, 1, 10, 17, 40, 100, 1000, 31000}).Draw(t, "cancel")
 	case 1, 2:
